@@ -296,6 +296,7 @@ UNIT = Unit(
                 "blank_from(final(term)@, frame_start(old(term)@, old(bar_count).0 as int)) && final(term)@.lin() == frame_start(old(term)@, old(bar_count).0 as int) && final(bar_count).0 == 0"),
                ("C19-rows-accounted",
                 "res.is_ok() && old(self).alignment is Top ==> final(bar_count).0 as nat == rh(old(self).lines@, old(term)@.w, stop(old(self).lines@, old(term)@.w, old(term)@.h, 0))"),
+               ("rows-bounded", "res.is_ok() ==> final(bar_count).0 <= hts(old(self).lines@, old(term)@.w, old(self).lines@.len() as int) + old(bar_count).0"),
                ("C19-never-taller-than-terminal", "res.is_ok() && old(self).alignment is Top ==> final(bar_count).0 as nat <= old(term)@.h"),
            ],
            findings=[
